@@ -221,7 +221,7 @@ theorem locateOne_tol_unfold (L : List Label) (v : Label) (t : Tol) (q : Rat) (q
 
 theorem locateOne_tol_empty (L : List Label) (v : Label) (t : Tol) (q : Rat)
     (hv : v.toRat? = some q) (hL : L.mapM Label.toRat? = some []) :
-    locateOne L v (some t) = .error .value := by
+    locateOne L v (some t) = .error .index := by
   unfold locateOne
   simp only [hv, hL, List.isEmpty_nil, if_true]
 
